@@ -237,6 +237,28 @@ def run_case(job):
     return None, (json.dumps([_shape(c) for c in case['conds']] + [case['desc'], variant % 60, style, under]), sql)
 
 
+def unique_names(ctx):
+    """growth item (DRIFT only): SqlMethodT._make_unique_names_list against specs/sql/UniqueNames.tla"""
+    from ak.mcaller_sql import SqlMethodT
+    cfg = ('SPECIFICATION Spec\nCHECK_DEADLOCK FALSE\nCONSTANTS\n  Pool = {"id", "id_1", "id_2", "n"}\n  MaxLen = 5\n  Emit = TRUE\n'
+           'INVARIANT AllDistinct\nINVARIANT KeepsFirst\nINVARIANT RenamedFromOriginal\nPROPERTY Terminates\n')
+    r = ctx.tlc('sql/UniqueNames.tla', cfg, workers=4, timeout=1200)
+    seen = {}
+    for c in r.printed:
+        if isinstance(c, dict):
+            seen[json.dumps(c['names'])] = c            # (lines are repeated when TLC checks the liveness property)
+    if len(seen) < 1000:
+        raise Machinery('UniqueNames emitted %d lists' % len(seen))
+    bad = 0
+    for c in seen.values():
+        got = SqlMethodT._make_unique_names_list(list(c['names']))
+        if list(got) != list(c['result']):
+            bad += 1
+            if bad <= 3:
+                ctx.note_drift('UniqueNames: %s -> %s, I-spec %s' % (c['names'], got, c['result']))
+    ctx.extra['unique_names_lists'] = {'lists': len(seen), 'differences': bad}
+
+
 def run(ctx):
     ctx.assumptions += ['sqlite3 columns without type affinity; value pool NULL, 0, 1, "", "a", "o\'q", "%"; LIKE without '
                         'ESCAPE; the %s placeholder style is exercised through a sqlite connection whose type name contains mysql.connector and whose cursor maps %s to ?; sets only as 0/1-element containers (their iteration order is unspecified)']
@@ -280,6 +302,7 @@ def run(ctx):
     bad = json.loads(json.dumps(cases[5]))
     bad['rows'] = bad['rows'] + [1]
     ctx.selftest(run_case((bad, table, 0))[0] is not None, 'replay accepted a corrupted row set')
+    unique_names(ctx)
     ctx.traces = len(jobs)
     ctx.exhaustive = False
     ctx.extra['single_condition_cases_exhaustive'] = n1
